@@ -152,11 +152,73 @@ class _Alpha(ast.NodeTransformer):
         return ast.copy_location(new, node)
 
 
+class _FlatF(ast.NodeTransformer):
+    """f"{f'{a}::S'}::Min"  ==  f"{a}::S::Min": a piece of text interpolated into text (no conversion, no format
+    spec) is spliced in, adjacent constants are merged."""
+    def visit_JoinedStr(self, n):
+        self.generic_visit(n)
+        parts = []
+        for p in n.values:
+            if isinstance(p, ast.FormattedValue) and p.conversion == -1 and p.format_spec is None and isinstance(p.value, ast.JoinedStr):
+                parts += p.value.values
+            elif isinstance(p, ast.FormattedValue) and p.conversion == -1 and p.format_spec is None and isinstance(p.value, ast.Constant) and isinstance(p.value.value, str):
+                parts.append(p.value)
+            else:
+                parts.append(p)
+        merged = []
+        for p in parts:
+            if isinstance(p, ast.Constant) and merged and isinstance(merged[-1], ast.Constant):
+                merged[-1] = ast.Constant(value=merged[-1].value + p.value)
+            else:
+                merged.append(p)
+        n.values = merged
+        return n
+
+
+def _is_keys(x):
+    return isinstance(x, ast.Call) and isinstance(x.func, ast.Attribute) and x.func.attr == "keys" and not x.args and not x.keywords
+
+
+class _Keys(ast.NodeTransformer):
+    """Iterating / testing membership in `d.keys()` is iterating / testing membership in `d`."""
+    def visit_Call(self, n):
+        self.generic_visit(n)
+        if isinstance(n.func, ast.Name) and n.func.id in ("iter", "list", "tuple", "set", "sorted", "len", "frozenset", "enumerate", "reversed") and n.args and _is_keys(n.args[0]) \
+                and n.func.id != "reversed":
+            n.args[0] = n.args[0].func.value
+        return n
+
+    def visit_comprehension(self, n):
+        self.generic_visit(n)
+        if _is_keys(n.iter):
+            n.iter = n.iter.func.value
+        return n
+
+    def visit_For(self, n):
+        self.generic_visit(n)
+        if _is_keys(n.iter):
+            n.iter = n.iter.func.value
+        return n
+
+    def visit_Compare(self, n):
+        self.generic_visit(n)
+        if len(n.ops) == 1 and isinstance(n.ops[0], (ast.In, ast.NotIn)) and _is_keys(n.comparators[0]):
+            n.comparators[0] = n.comparators[0].func.value
+        return n
+
+
 def txt(e: ast.AST) -> str:
     """Normalised text of an expression / statement (whitespace collapsed, bound variables alpha-renamed)."""
     import copy
+    copied = False
+    if any(_is_keys(x) for x in ast.walk(e)):
+        e = _Keys().visit(copy.deepcopy(e))
+        copied = True
+    if any(isinstance(x, ast.JoinedStr) and any(isinstance(p, ast.FormattedValue) and isinstance(p.value, (ast.JoinedStr, ast.Constant)) for p in x.values) for x in ast.walk(e)):
+        e = _FlatF().visit(e if copied else copy.deepcopy(e))
+        copied = True
     if any(isinstance(x, (ast.ListComp, ast.SetComp, ast.GeneratorExp, ast.DictComp, ast.Lambda)) for x in ast.walk(e)):
-        e = _Alpha().visit(copy.deepcopy(e))
+        e = _Alpha().visit(e if copied else copy.deepcopy(e))
     return " ".join(ast.unparse(e).split())
 
 
